@@ -108,22 +108,32 @@ def run(ctx):
     n_dag = 90 if quick else 700
     import itertools
     import random as _random
-    from harness import c04_ifinits, c04_shapeov
+    from harness import c03_fuse, c04_ifinits, c04_shapeov
     # hand-built families shared with C04 (own generator derived from the seed: the random DAG stream keeps its sequence): constant-condition
     # Ifs whose taken branches own initializers with clashing names; shape-like overridable initializer-inputs (feeds with override values)
     fam_rng = _random.Random(f"{ctx.seed}:C03:families")
+    fuse_rng = _random.Random(f"{ctx.seed}:C03:fuse")
+    fuse_cases = c03_fuse.fuse_cases(fuse_rng, quick)
+    cast_cases = c03_fuse.cast_unknown_cases(fuse_rng, quick)
+    FAM = ("if-inits", "shape-ov", "fuse2", "cast-unknown")
+    # CastLike / Cast with operands of unknown element type in the decision-trace correspondence (own call: the main stream keeps its sequence)
+    cstats = K.trace_stream(ctx, _random.Random(f"{ctx.seed}:C03:cast-trace"), cast_cases, "C03")
+    cagree = cstats["agree"] + cstats["agree(outside-theorem-side-conditions)"]
+    ctx.obligation("correspondence fold_constants on CastLike / Cast with operands of unknown element type (no value_info, shape inference off): decisions "
+                   "keep (target unknown) / Identity (known equal) / Cast (known different) of the real pass = Opt/Fold.v pe_castlike",
+                   cstats["disagree"] == 0 and cagree >= len(cast_cases) * 2 // 3, f"{dict(cstats)}")
     for c in itertools.chain(K.corpus_stream(rng, "C03"), K.alias_stream(rng, 15 if quick else 60),
                              K.pass_family_stream(rng, 15 if quick else 60),
-                             c04_shapeov.cases(fam_rng), c04_ifinits.cases(fam_rng, quick),
+                             c04_shapeov.cases(fam_rng), c04_ifinits.cases(fam_rng, quick), fuse_cases, cast_cases,
                              K.dag_stream(rng, n_dag, overridable_every=9, start=1000)):
         if not isinstance(c, G.Case):
             discards["generator-error: " + c[1][:60]] += 1
             continue
         base, reason = K.validity(c)
         if base is None:
-            discards[(c.kind + ": " if c.kind in ("if-inits", "shape-ov") else "") + reason.split(":")[0].split("(")[0].strip()] += 1
+            discards[(c.kind + ": " if c.kind in FAM else "") + reason.split(":")[0].split("(")[0].strip()] += 1
             continue
-        if c.kind in ("if-inits", "shape-ov"):
+        if c.kind in FAM:
             stats["family:" + c.kind + ":valid-models"] += 1
             feats[c.features[0]] += 1
             ctx.case((c.kind, tuple(c.features[:4])))
@@ -158,6 +168,10 @@ def run(ctx):
         if not quick:
             plan += [("optimize", K.R.option_tuples(rng, 2)[1], True), ("rewrite", None, False)]
         K.differential(ctx, c, base, plan, stats)
+    if stats["family:fuse2:valid-models"] < len(fuse_cases) * 2 // 3 or stats["family:cast-unknown:valid-models"] < len(cast_cases) * 2 // 3:
+        ctx.tie_broken("harness", "fuse2/cast-unknown:generator-degenerate",
+                       f"valid: fuse2 {stats['family:fuse2:valid-models']} of {len(fuse_cases)}, cast-unknown {stats['family:cast-unknown:valid-models']} of "
+                       f"{len(cast_cases)}: {dict(discards)}")
     pstats = pc.finish() or pc.stats
     istats = itie.finish()
     zero_sign_witness(ctx, stats)
@@ -166,6 +180,7 @@ def run(ctx):
     ctx.obligation("direct oracle: every entry point / option tuple leaves the outputs of every valid generated model unchanged "
                    "(known findings excepted)", stats["violations"] == 0 or not ctx.violations, f"{dict(stats)}")
     ctx.cover(inline_tie=dict(istats))
+    ctx.cover(cast_unknown_trace=dict(cstats))
     ctx.cover(trace=dict(tstats), oracle=dict(stats), per_pass=dict(pstats), pipeline=pinfo, discarded=dict(discards),
               feature_histogram=dict(sorted(feats.items())),
               translator={"registry": len(info["registry"]) if info else None, "guards_graph_inputs": info.get("guard") if info else None,
